@@ -105,103 +105,123 @@ Definition check_cond (ops : list cop) (o : obs) : bool :=
   | _ => false
   end.
 
-(* Event: statements on the sequence of snapshots *)
+(* Event: statements on the sequence of snapshots.  A snapshot is first decoded into a
+   typed view (flag, ids in _waiters, state of every returned awaitable, state of every
+   inner future); an observable that does not decode is rejected. *)
 Definition is_tag (t : string) (o : obs) : bool := obs_eqb o (OTag t).
+
+Record view := mkView {
+  v_value : bool; v_ids : list nat; v_rets : list rstate; v_inners : list istate }.
+
+Definition rdec (o : obs) : option rstate :=
+  if is_tag "pending" o then Some RPending else if is_tag "done" o then Some ROk
+  else if is_tag "timeout" o then Some RTimeout else if is_tag "cancelled" o then Some RCancelled else None.
+Definition idec (o : obs) : option istate :=
+  if is_tag "pending" o then Some IPending else if is_tag "done" o then Some IDone
+  else if is_tag "cancelled" o then Some ICancelled else None.
+Definition ndec (o : obs) : option nat :=
+  match o with OInt z => if (0 <=? z)%Z then Some (Z.to_nat z) else None | _ => None end.
+
+Fixpoint dec_list {A} (f : obs -> option A) (l : list obs) : option (list A) :=
+  match l with
+  | [] => Some []
+  | x :: r => match f x, dec_list f r with Some a, Some ar => Some (a :: ar) | _, _ => None end
+  end.
+
+Definition decode (o : obs) : option view :=
+  match o with
+  | OList [_; OBool v; OList ids; OList rets; OList inners] =>
+      match dec_list ndec ids, dec_list rdec rets, dec_list idec inners with
+      | Some i, Some r, Some n => Some (mkView v i r n)
+      | _, _, _ => None
+      end
+  | _ => None
+  end.
+
+Definition view_of (s : estate) : view :=
+  mkView (e_value s) (inset_ids 0 (e_waits s)) (map returned (e_waits s)) (map w_inner (e_waits s)).
+
+Definition istate_eqb (a b : istate) : bool :=
+  match a, b with IPending, IPending | IDone, IDone | ICancelled, ICancelled => true | _, _ => false end.
+
+(* indices of the pending inner futures *)
+Fixpoint pend_idx (l : list istate) (i : nat) : list nat :=
+  match l with
+  | [] => []
+  | x :: r => if istate_eqb x IPending then i :: pend_idx r (S i) else pend_idx r (S i)
+  end.
 
 (* one snapshot: an event that is set has no pending inner future (no lost wakeup);
    every pending inner future is in Event._waiters *)
-Fixpoint pending_ids (inners : list obs) (i : nat) : list nat :=
-  match inners with
-  | [] => []
-  | x :: r => if is_tag "pending" x then i :: pending_ids r (S i) else pending_ids r (S i)
-  end.
+Definition vsnap_ok (v : view) : bool :=
+  (List.length (v_rets v) =? List.length (v_inners v))%nat
+  && (if v_value v then forallb (fun x => negb (istate_eqb x IPending)) (v_inners v) else true)
+  && forallb (fun w => existsb (Nat.eqb w) (v_ids v)) (pend_idx (v_inners v) 0).
 
-Definition has_id (ids : list obs) (w : nat) : bool :=
-  existsb (fun o => obs_eqb o (onat w)) ids.
-
-Definition ids_of (o : obs) : list obs :=
-  match o with OList [_; _; OList ids; _; _] => ids | _ => [] end.
-
-Definition snap_ok (o : obs) : bool :=
-  match o with
-  | OList [_; OBool v; OList ids; OList rets; OList inners] =>
-      (List.length rets =? List.length inners)%nat
-      && (if v then forallb (fun x => negb (is_tag "pending" x)) inners else true)
-      && forallb (has_id ids) (pending_ids inners 0)
-  | _ => false
-  end.
-
-(* between consecutive snapshots: resolved awaitables keep their state; an awaitable
-   becomes "done" only while the event is set or on a loop-iteration boundary following
-   a set; "timeout" appears only on the step where that wait's timer fires *)
-Fixpoint terminal_lists (a b : list obs) : bool :=
+(* every element of [a] is pending or unchanged in [b] (and [b] is at least as long) *)
+Fixpoint term_list {A} (eqb : A -> A -> bool) (p : A) (a b : list A) : bool :=
   match a, b with
   | [], _ => true
-  | x :: a', y :: b' => (is_tag "pending" x || obs_eqb x y) && terminal_lists a' b'
+  | x :: a', y :: b' => (eqb x p || eqb x y) && term_list eqb p a' b'
   | _ :: _, [] => false
   end.
 
-Definition rets_of (o : obs) : list obs :=
-  match o with OList [_; _; _; OList rets; _] => rets | _ => [] end.
-Definition inners_of (o : obs) : list obs :=
-  match o with OList [_; _; _; _; OList inn] => inn | _ => [] end.
-Definition value_of (o : obs) : bool :=
-  match o with OList [_; OBool v; _; _; _] => v | _ => false end.
-
-Fixpoint changed_to (t : string) (a b : list obs) (i : nat) : list nat :=
+(* indices at which [b] has state [t] while [a] has another state or no entry yet *)
+Fixpoint changed_to {A} (eqb : A -> A -> bool) (t : A) (a b : list A) (i : nat) : list nat :=
   match b with
   | [] => []
   | y :: b' =>
-      let rest := changed_to t (tl a) b' (S i) in
-      if is_tag t y && negb (is_tag t (hd ONone a)) then i :: rest else rest
+      let rest := changed_to eqb t (tl a) b' (S i) in
+      if eqb y t && negb (match a with x :: _ => eqb x t | [] => false end) then i :: rest else rest
   end.
 
-Definition step_ok (pop : option eop) (op : eop) (prev cur : obs) : bool :=
-  terminal_lists (rets_of prev) (rets_of cur)
-  && terminal_lists (inners_of prev) (inners_of cur)
+Definition step_ok (pop : option eop) (op : eop) (prev cur : view) : bool :=
+  (* resolved awaitables and resolved inner futures keep their state *)
+  term_list rstate_eqb RPending (v_rets prev) (v_rets cur)
+  && term_list istate_eqb IPending (v_inners prev) (v_inners cur)
   && (* inner futures complete only through set() or an immediate wait on a set event *)
-     (match changed_to "done" (inners_of prev) (inners_of cur) 0 with
+     (match changed_to istate_eqb IDone (v_inners prev) (v_inners cur) 0 with
       | [] => true
-      | _ => value_of cur
+      | _ => v_value cur
       end)
   && (* a TimeoutError appears only when that wait's timer fires *)
-     (match changed_to "timeout" (rets_of prev) (rets_of cur) 0 with
+     (match changed_to rstate_eqb RTimeout (v_rets prev) (v_rets cur) 0 with
       | [] => true
       | [w] => match op with EFire w' => Nat.eqb w w' | _ => false end
       | _ => false
       end)
   && (* a returned awaitable completes only together with / after its inner future *)
-     forallb (fun w => is_tag "done" (nth w (inners_of cur) ONone))
-             (changed_to "done" (rets_of prev) (rets_of cur) 0)
+     forallb (fun w => match nth_error (v_inners cur) w with Some IDone => true | _ => false end)
+             (changed_to rstate_eqb ROk (v_rets prev) (v_rets cur) 0)
   && (* one loop iteration after its inner future was resolved, the awaitable is resolved *)
      (match op with
-      | EDrain => forallb (fun w => negb (is_tag "pending" (nth w (rets_of cur) ONone)))
-                          (filter (fun w => negb (existsb (Nat.eqb w) (pending_ids (inners_of prev) 0)))
-                                  (seq 0 (List.length (inners_of prev))))
+      | EDrain => forallb (fun w => match nth_error (v_rets cur) w with Some RPending => false | _ => true end)
+                          (filter (fun w => negb (existsb (Nat.eqb w) (pend_idx (v_inners prev) 0)))
+                                  (seq 0 (List.length (v_inners prev))))
       | _ => true
       end)
   && (* no residue: after two consecutive iterations without other activity, _waiters
         holds only futures that are still pending *)
      (match pop, op with
       | Some EDrain, EDrain =>
-          forallb (fun o => match o with
-                            | OInt z => existsb (Nat.eqb (Z.to_nat z)) (pending_ids (inners_of cur) 0)
-                            | _ => false end) (ids_of cur)
+          forallb (fun w => existsb (Nat.eqb w) (pend_idx (v_inners cur) 0)) (v_ids cur)
       | _, _ => true
       end).
 
-Fixpoint steps_ok (pop : option eop) (ops : list eop) (prev : obs) (snaps : list obs) : bool :=
+Fixpoint steps_ok (pop : option eop) (ops : list eop) (prev : view) (snaps : list view) : bool :=
   match ops, snaps with
   | [], [] => true
-  | op :: ops', cur :: snaps' => snap_ok cur && step_ok pop op prev cur && steps_ok (Some op) ops' cur snaps'
+  | op :: ops', cur :: snaps' => vsnap_ok cur && step_ok pop op prev cur && steps_ok (Some op) ops' cur snaps'
   | _, _ => false
   end.
 
-Definition empty_snap : obs := OList [ONone; OBool false; OList []; OList []; OList []].
-
 Definition check_event (ops : list eop) (o : obs) : bool :=
   match o with
-  | OList snaps => steps_ok None ops empty_snap snaps
+  | OList snaps =>
+      match dec_list decode snaps with
+      | Some vs => steps_ok None ops (view_of event_init) vs
+      | None => false
+      end
   | _ => false
   end.
 
